@@ -22,7 +22,8 @@
  * Condition variables are modelled here (the real object is never waited on); mutexes are modelled
  * AND really try-locked so that the real object state stays consistent.
  * Scheduling points lie BEFORE every hooked operation and additionally AFTER pthread_mutex_unlock and
- * pthread_create (the code that follows those two is what an unsynchronised access would race with).
+ * pthread_create (the code that follows those two is what an unsynchronised access would race with), and at the
+ * entry of a condition wait while the mutex is still held.
  * Not modelled: spurious condition-variable wake-ups; a timed condition wait times out only while
  * its mutex is free (timeout + re-acquisition are one step).
  * This TU is compiled without sanitizer instrumentation. */
@@ -363,6 +364,10 @@ static int64_t abs_to_v (const struct timespec *ts) {
 }
 static int cond_wait_common (pthread_cond_t *c, pthread_mutex_t *m, int timed, int64_t deadline) {
   sthread *t = &T[my_tid];
+  /* scheduling point at the entry, mutex still held: whatever the caller tested before deciding to wait was
+   * tested earlier, and a thread that does not need this mutex (a lock-free "set flag + notify") can run in
+   * between -- its notify then finds no waiter yet (lost wake-up) */
+  step ("cv-enter");
   *mowner (m) = -1;
   REAL (pthread_mutex_unlock) (m);
   t->op = OP_CONDWAIT; t->obj = c; t->obj2 = m; t->timed = timed; t->deadline = deadline;
